@@ -580,6 +580,7 @@ class C18(Property):
     case_timeout = 60
     workers = 8
     rule = ("Results with 1-4 environments (8%: 5-9 environments, 2-4 learners, 1-3 evaluators, lengths up to 27, ids up to 39; "
+            "40%: parameter column names containing/extending the special names — fold_index, index2, my_learner_id, evaluator_id2, rewards …; "
             "duplicate parameter values; value types str/int/None/bool/float/''/tuple and, rarely, frozenset), 1-3 learners, "
             "1-2 evaluators, missing triples, ragged lengths 1-7, rewards small ints (also 0/1, bool, dyadic floats), rows "
             "sometimes handed to the constructor in reverse order; chains of 1-4 steps of where_fin (n in None/'min'/0/k, l and p ids, "
@@ -650,6 +651,17 @@ class C18(Property):
                  "family": rng.choice(["str", "str", "const", "mixed"]), "lr": rng.choice(["int", "mixed"]), "ev": rng.choice(["str", "int"])}
         if rng.chance(0.05):
             kinds[rng.choice(["data", "data", "family"])] = "fset"
+        if rng.chance(0.4):
+            # parameter column NAMES that contain / extend the special names, so that a substring or prefix test on a
+            # column name (instead of equality) shows: 'index' in 'fold_index', startswith('learner_id'), …
+            alias = {"data": ["fold_index", "index2", "environment_id2", "data_index", "reward_data", "my_environment_id"],
+                     "seed": ["seed_index", "indexes", "environment_id_seed", "xreward"],
+                     "family": ["my_learner_id", "learner_id2", "family_index", "reward_family", "full_name2"],
+                     "lr": ["lr_index", "learner_idx", "evaluator_id_lr", "index_lr"],
+                     "ev": ["evaluator_id2", "ev_index", "my_evaluator_id", "index_ev", "rewards"]}
+            ren = {c: (rng.choice(alias[c]) if rng.chance(0.6) else c) for c in alias}
+            env_cols, lrn_cols, val_cols = [ren[c] for c in env_cols], [ren[c] for c in lrn_cols], [ren[c] for c in val_cols]
+            kinds = {ren[c]: k for c, k in kinds.items()}
         envs = [[i] + [self.gen_value(rng, kinds[c]) for c in env_cols] for i in eids]
         lrns = [[i] + [self.gen_value(rng, kinds[c]) for c in lrn_cols] for i in lids]
         vals = [[i] + [self.gen_value(rng, kinds[c]) for c in val_cols] for i in vids]
@@ -872,6 +884,14 @@ class C18(Property):
                                   {"op": "raw_contrast", "l": "family", "l1": "g", "l2": "f", "x": "environment_id", "p": "environment_id", "span": None, "fresh": True},
                                   {"op": "raw_contrast", "l": "learner_id", "l1": 0, "l2": 1, "x": "data", "p": "data", "span": None, "fresh": True},
                                   {"op": "raw_contrast", "l": "learner_id", "l1": 1, "l2": 1, "x": "index", "p": "environment_id", "span": None, "fresh": True}]))
+        # column names that contain the special names (mutant c18c-m1: `'index' in x` instead of `x == 'index'`)
+        cs.append(dict(base, env_cols=["fold_index"], lrn_cols=["my_learner_id"], envs=[[0, 10], [1, 20]], lrns=[[0, "A"], [1, "B"]], vals=[[0]],
+                       evals=[[0, 0, 0, [1, 0]], [0, 1, 0, [0, 1]], [1, 0, 0, [1, 1, 0, 0, 0, 0]], [1, 1, 0, [0, 0, 1, 1, 1, 1]]],
+                       steps=[{"op": "raw_learners", "x": "fold_index", "l": "learner_id", "p": "environment_id", "span": None, "fresh": True},
+                              {"op": "raw_learners", "x": ["fold_index"], "l": "my_learner_id", "p": "fold_index", "span": 2, "fresh": True},
+                              {"op": "where_fin", "n": "min", "l": "my_learner_id", "p": "fold_index", "fresh": True},
+                              {"op": "raw_contrast", "l": "my_learner_id", "l1": "A", "l2": "B", "x": "fold_index", "p": "fold_index", "span": None, "fresh": True},
+                              {"op": "where_best", "l": "my_learner_id", "p": "fold_index", "n": None, "fresh": True}]))
         # C18-F4: where_best with frozenset pairing values
         cs.append(dict(base, lrn_cols=[], lrns=[[0], [1]], vals=[[0]], envs=[[0, {"fs": [1]}], [1, {"fs": [2]}], [2, {"fs": [1]}]],
                        evals=[[0, 0, 0, [1]], [0, 1, 0, [0]], [1, 0, 0, [1]], [1, 1, 0, [1]], [2, 0, 0, [0]], [2, 1, 0, [3]]],
